@@ -44,7 +44,8 @@ ASSUMPTIONS = [
 PROBES = ["eof_inside_block", "trailer_without_details_allow_empty", "trailer_without_details_strict",
           "mode_line_before_first_heading", "duplicate_header", "edit_after_damaged_parse",
           "strict_raised", "format_refused", "new_block_on_empty_changelog", "bytes_delivery",
-          "lazy_iterator_delivery", "one_space_trailer"]
+          "lazy_iterator_delivery", "one_space_trailer", "block_handles_retained",
+          "formatted_mid_history", "edit_through_retained_block_handle"]
 
 PKGS = ["hello", "lib-x1", "g++-12", "a.b"]
 VERS = ["1.0-1", "2:1.2~rc1-3", "0.1", "1.0-1ubuntu1", "3.0+dfsg-2"]
@@ -111,8 +112,20 @@ def generate(seed, run, tier):
     for _ in range(rs.choice([0, 0, 1, 2, 4, 10])):
         k = rq.choice(["new_block", "add_change", "add_change", "package", "version",
                        "distributions", "urgency", "author", "date", "block_set", "block_set",
-                       "block_add_change"])
+                       "block_add_change", "hold", "held_set", "held_set", "str", "str"])
         e = {"op": k}
+        if k in ("hold", "str"):
+            # hold: a client keeps the block objects it was handed; str: the changelog is
+            # formatted in the middle of the history (observation is part of the schedule)
+            edits.append(e)
+            continue
+        if k == "held_set":
+            attr = rq.choice(["package", "version", "distributions", "urgency", "author", "date"])
+            e.update(i=rq.randrange(4), attr=attr,
+                     val=rq.choice({"package": PKGS, "version": VERS, "distributions": DISTS,
+                                    "urgency": URG[:4], "author": AUTH, "date": DATES}[attr]))
+            edits.append(e)
+            continue
         if k == "block_set":
             attr = rq.choice(["package", "version", "distributions", "urgency", "author", "date"])
             e.update(i=rq.randrange(4), attr=attr,
@@ -284,10 +297,25 @@ def execute(case):
         out.probe("duplicate_header")
     # ---- edits
     applied = []
+    held = []
     for e in case.get("edits", []):
         op = e["op"]
         try:
-            if op == "new_block":
+            if op == "hold":
+                held = [c[i] for i in range(len(c))]
+                out.probe("block_handles_retained")
+            elif op == "str":
+                try:
+                    str(c)
+                    out.probe("formatted_mid_history")
+                except changelog.ChangelogCreateError:
+                    pass
+            elif op == "held_set":
+                if not held:
+                    continue
+                setattr(held[e["i"] % len(held)], e["attr"], e["val"])
+                out.probe("edit_through_retained_block_handle")
+            elif op == "new_block":
                 if len(c) == 0:
                     out.probe("new_block_on_empty_changelog")
                 c.new_block(**e["args"])
